@@ -91,8 +91,21 @@ def _run(case, ctx, sim):
     prof = ExecutionProfile(load_balancing_policy=U.fixed_plan_policy(order=lbp_order),
                             retry_policy=F.scripted_policy(decisions, rlog), request_timeout=None)
     cap = 2
-    cluster, session, nodes = F.build(sim, m, prof, max_in_flight=(cap + 1) if "busy" in states else None,
+    warm = case.get("warm", 0)
+    # warm > 0: few stream ids per connection (3) and `warm` earlier requests per host, so that the
+    # request under test goes out on every possible stream id, id 0 included (with the default 300 ids
+    # id 0 only comes round every 300th request)
+    cluster, session, nodes = F.build(sim, m, prof, max_in_flight=(cap + 1) if ("busy" in states or warm) else None,
                                       contact=plan[0])
+    for _w in range(warm):
+        for i in plan:
+            h = F.host_of(cluster, addrs[i])
+            if h is not None and session._pools.get(h) is not None:
+                # a request to one healthy host must succeed whatever stream id it travels on
+                with ctx.driver(["C17.warmup", "healthy-host"]):
+                    sim.call(session.execute, SimpleStatement("SELECT w FROM warm"), host=h)
+    if ctx._failures:
+        return
     pos_of = dict((addrs[i], p) for p, i in enumerate(plan))
     got = []            # plan position (or "off-plan:<addr>") of every user frame, in order
     count = {}
@@ -233,13 +246,14 @@ def _cases(chunk):
     plan = list(range(n)) if order == "asc" else (list(reversed(range(n))) if order == "desc" else list(order))
     fixed = [chunk[k] for k in ("first", "second") if chunk.get(k) is not None]
     for rest in itertools.product(STATES, repeat=n - len(fixed)):
-        yield {"nodes": n, "plan": plan, "states": fixed + list(rest), "mode": "lbp", "kind_shift": 0,
-               "tape": [], "gran": "blocking"}
+        sts = fixed + list(rest)
+        yield {"nodes": n, "plan": plan, "states": sts, "mode": "lbp", "kind_shift": 0,
+               "tape": [], "gran": "blocking", "warm": sum(STATES.index(x) for x in sts) % 3}
     if n == 2 and order == "asc":
         for s in STATES:
             for target in (0, 1):
                 yield {"nodes": 2, "plan": [target, 1 - target], "states": [s, "ok"], "mode": "host", "kind_shift": 1,
-                       "tape": [], "gran": "blocking"}
+                       "tape": [], "gran": "blocking", "warm": (STATES.index(s) + target) % 3}
 
 
 def s_case(gran):
@@ -252,6 +266,7 @@ def s_case(gran):
         return {"nodes": m, "plan": list(plan), "states": states,
                 "mode": draw(st.sampled_from(["lbp", "lbp", "lbp", "host"])),
                 "kind_shift": draw(st.integers(0, 3)),
+                "warm": draw(st.sampled_from([0, 1, 1, 2])),
                 "tape": draw(st.lists(st.integers(0, 3), max_size=30 if gran == "locks" else 6)), "gran": gran}
     return st.composite(build)()
 
